@@ -101,6 +101,7 @@ StepOf(x) ==
          ELSE IF x.fault # 0 THEN R(FaultFail(x), st)
          ELSE R(PreCheck(x.prea, x.a) \o PreCheck(x.preb, x.b)
                 \o V([e |-> "Equals", a |-> x.prea, b |-> x.preb, res |-> x.res, rev |-> x.rev, ro |-> x.ro, lib |-> TRUE, ta |-> x.ta, tb |-> x.tb]), st)
+    [] x.e = "SAfterFail" -> R(FailIf(x.fault # 0, "C14", "the URI a failed in-place call left behind points into memory the call released (reading it faults)"), st)
     [] x.e = "SEnd" -> R(FailIf(x.leak # 0 \/ x.bad, "C13", "blocks of the session's manager outstanding after every URI was freed (or a bad release)"), st)
     [] x.e = "SSkip" -> R(HarnessErr("the driver attempted an action its own mirror did not enable"), st)
     [] OTHER -> R(HarnessErr("unknown event"), st)
